@@ -152,13 +152,23 @@ def replay(beh, mode, rate_name="dyadic", ascending=True, seed=11, complex_src=F
                 refs[("b", p)] = copy.deepcopy(s.rng).standard_normal(400)
                 s.add_noise(0, 1)
     elif mode == "chirp":
+        from astropy import units as u
+        # every other configuration hands the parameters over as ONE unit-carrying object per kind that is stepped in
+        # place between the calls (f += df): each call must see the value the object holds at that moment
+        as_quantity = (seed + cfg["pols"] + cfg["nant"]) % 2 == 0
+        fq = (rate * 0.11 / 1e3) * u.kHz
         for ai, a in enumerate(ants):
             for p, s in enumerate(a.streams):
                 # second polarisation: a non-drifting tone (drift exactly 0) with a phase that is not a multiple of pi
                 par = (rate * (0.11 + 0.07 * ai + 0.03 * p), rate * rate * 0.002 if p == 0 else 0.0,
                        1.5 + ai, 0.3 + 1.1 * p)
+                if as_quantity:
+                    fq += ((par[0] / 1e3) * u.kHz - fq)                  # in place: the same object, a new value
+                    par = (float(fq.to(u.Hz).value), par[1], par[2], par[3])
+                    s.add_constant_signal(f_start=fq, drift_rate=(par[1] * 60.0) * u.Hz / u.min, level=par[2], phase=par[3])
+                else:
+                    s.add_constant_signal(f_start=par[0], drift_rate=par[1], level=par[2], phase=par[3])
                 chirp[(ai, p)] = par
-                s.add_constant_signal(f_start=par[0], drift_rate=par[1], level=par[2], phase=par[3])
     try:
         for k, step in enumerate(steps):
             if step == "done":
